@@ -42,7 +42,8 @@ CHECKS["C16"] = dict(text="TLC explores a step-machine transcription of QuickShi
     "orders x all cut-off assignments and checks that the final labelling is valid for the declarative reference relation (three-valued at exact "
     "equalities), the heaviest point is a centre, labels are centres, and the code's Gabriel graph lies between the Must/May brute-force graphs; a "
     "mutation demo must yield a counterexample. Real QuickShift fits (1-4 dimensions, duplicates, collinear sets, per-point cut-offs, shells 1-3, "
-    "scale, periodic cells) and their permuted / re-weighted / image-shifted variants are validated by TLC against the same reference.", ref="6/C16",
+    "scale, periodic cells) and their permuted / re-weighted / image-shifted variants are validated by TLC against the same reference; in free space, "
+    "where dyadic coordinates make every comparison exact, the recorded Gabriel graph must EQUAL the brute-force definition (ties on the sphere included).", ref="6/C16",
     tech="implementation-shaped TLA+ step machine checked against a declarative reference (TLC); TLC validation of recorded fits incl. metamorphic variants")
 CHECKS["C19"] = dict(text="TLC checks on ALL small integer point sets (1 and 2 hull dimensions) in general position that the reference definition "
     "(a sample is a vertex iff strictly below every convex combination of the others at its position, by exact orientation determinants) coincides "
